@@ -272,3 +272,79 @@ Proof.
   exists (qc 1 2), (qc 1 1). repeat split; try reflexivity.
   left. intros E. apply (f_equal (fun q => Qnum (this q))) in E. vm_compute in E. discriminate.
 Qed.
+
+(* ---------------------------------------------------------------- recurrence form of the moments *)
+Section Recurrence.
+Context {K : Fld}.
+Add Field Ff_c13b : (@FT K).
+Local Open Scope fld_scope.
+
+(* the one-pass evaluation used by the executable wrapper is the defining sum *)
+Lemma nexp_go_from m v p : forall k,
+  nexp_go m v k (nmom m v k) (nmom m v (S k)) p = nexp_from m v k p.
+Proof.
+  induction p as [|c p IH]; intros k; cbn [nexp_go nexp_from]; [reflexivity|].
+  rewrite <- (IH (S k)). rewrite <- nmom_SS. reflexivity.
+Qed.
+
+Lemma normal_expect_var_fast_ok m v p : normal_expect_var_fast m v p = normal_expect_var m v p.
+Proof. unfold normal_expect_var_fast, normal_expect_var. apply (nexp_go_from m v p 0). Qed.
+
+End Recurrence.
+
+(* ---------------------------------------------------------------- standard normal cdf *)
+Local Open Scope R_scope.
+
+Lemma sqrt_2PI_neq0 : sqrt (2 * PI) <> 0.
+Proof. apply Rgt_not_eq. apply sqrt_lt_R0. pose proof PI_RGT_0. lra. Qed.
+
+Lemma pdf_even t : std_normal_pdf (- t) = std_normal_pdf t.
+Proof. unfold std_normal_pdf. replace (- t * - t) with (t * t) by ring. reflexivity. Qed.
+
+Lemma pdf_continuous z : continuous std_normal_pdf z.
+Proof.
+  apply (ex_derive_continuous (V := R_NormedModule)).
+  unfold std_normal_pdf. auto_derive. exact I.
+Qed.
+
+Lemma pdf_ex_RInt a b : ex_RInt std_normal_pdf a b.
+Proof. apply (ex_RInt_continuous (V := R_CompleteNormedModule)). intros z _. apply pdf_continuous. Qed.
+
+Lemma std_normal_cdf_opp x : std_normal_cdf (- x) = 1 - std_normal_cdf x.
+Proof.
+  unfold std_normal_cdf.
+  assert (E : RInt std_normal_pdf (- 0) (- x) = - RInt std_normal_pdf 0 x).
+  { pose proof (RInt_correct (V := R_CompleteNormedModule) std_normal_pdf (- 0) (- x) (pdf_ex_RInt _ _)) as HJ.
+    apply (is_RInt_comp_opp std_normal_pdf 0 x) in HJ.
+    pose proof (is_RInt_opp _ _ _ _ (RInt_correct (V := R_CompleteNormedModule) std_normal_pdf 0 x (pdf_ex_RInt _ _))) as HI.
+    assert (HJ' : is_RInt (fun y => opp (std_normal_pdf y)) 0 x (RInt std_normal_pdf (- 0) (- x))).
+    { eapply is_RInt_ext; [|exact HJ]. intros t _. cbn. rewrite pdf_even. reflexivity. }
+    transitivity (RInt (fun y => opp (std_normal_pdf y)) 0 x).
+    - symmetry. exact (is_RInt_unique _ _ _ _ HJ').
+    - exact (is_RInt_unique _ _ _ _ HI). }
+  rewrite Ropp_0 in E. rewrite E. lra.
+Qed.
+
+Lemma std_normal_cdf_derive z : is_derive std_normal_cdf z (std_normal_pdf z).
+Proof.
+  unfold std_normal_cdf.
+  evar_last.
+  apply (is_derive_plus (V := R_NormedModule) (fun _ => 1 / 2) (fun x => RInt std_normal_pdf 0 x) z (@zero R_NormedModule) (std_normal_pdf z)).
+  - apply (is_derive_const (V := R_NormedModule)).
+  - apply (is_derive_RInt (V := R_CompleteNormedModule) std_normal_pdf (fun x => RInt std_normal_pdf 0 x) 0 z).
+    + apply filter_forall. intros y. apply RInt_correct. apply pdf_ex_RInt.
+    + apply pdf_continuous.
+  - cbn. unfold plus, zero; cbn. ring.
+Qed.
+
+(* d/dz log Phi(z) = phi(z) / Phi(z) wherever Phi(z) > 0 *)
+Lemma log_cdf_derive z : 0 < std_normal_cdf z ->
+  is_derive (fun x => ln (std_normal_cdf x)) z (std_normal_pdf z / std_normal_cdf z).
+Proof.
+  intros Hpos.
+  evar_last.
+  apply (is_derive_comp (V := R_NormedModule) ln std_normal_cdf z (/ std_normal_cdf z) (std_normal_pdf z)).
+  - apply is_derive_Reals. apply derivable_pt_lim_ln. exact Hpos.
+  - apply std_normal_cdf_derive.
+  - cbn. unfold scal; cbn. unfold mult; cbn. field. lra.
+Qed.
